@@ -661,29 +661,45 @@ func (c *c05) hasBadBytesAttr(payload []byte) bool {
 				walk(e, depth+1)
 			}
 		case map[string]interface{}:
-			if tn, ok := x["type"].(string); ok {
-				if ts := c.spec.Type(tn); ts != nil {
-					if attrs, ok := x["attributes"].(map[string]interface{}); ok {
-						for _, a := range ts.Attrs {
-							if a.Kind != world.KBytes {
-								continue
-							}
+			// encoding/json matches member names to struct fields case-insensitively
+			// ("tYpe" is the type member, and of several spellings the last one in the
+			// text wins): every spelling is looked at.
+			var types []*world.TypeSpec
 
-							val, present := attrs[a.Name]
-							if !present || val == nil {
-								continue
-							}
+			for _, k := range sortedKeys(x) {
+				if tn, ok := x[k].(string); ok && strings.EqualFold(k, "type") {
+					if ts := c.spec.Type(tn); ts != nil {
+						types = append(types, ts)
+					}
+				}
+			}
 
-							s, isStr := val.(string)
-							if !isStr {
-								found = true
-								return
-							}
+			for _, k := range sortedKeys(x) {
+				attrs, ok := x[k].(map[string]interface{})
+				if !ok || !strings.EqualFold(k, "attributes") {
+					continue
+				}
 
-							if _, err := base64.StdEncoding.DecodeString(s); err != nil {
-								found = true
-								return
-							}
+				for _, ts := range types {
+					for _, a := range ts.Attrs {
+						if a.Kind != world.KBytes {
+							continue
+						}
+
+						val, present := attrs[a.Name]
+						if !present || val == nil {
+							continue
+						}
+
+						s, isStr := val.(string)
+						if !isStr {
+							found = true
+							return
+						}
+
+						if _, err := base64.StdEncoding.DecodeString(s); err != nil {
+							found = true
+							return
 						}
 					}
 				}
